@@ -274,4 +274,77 @@ theorem mem_cap_range (s : Sched) (hi : 0 < s.interval) (a b k : Int) :
     · have := h3 hc; omega
     · omega
 
+/-! ### the emsg box codec -/
+
+theorem beBytes_length (n v : Nat) : (beBytes n v).length = n := by
+  induction n generalizing v with
+  | zero => rfl
+  | succ n ih => simp [beBytes, ih]
+
+theorem beNat_append_single (l : Bytes) (x : UInt8) : beNat (l ++ [x]) = beNat l * 256 + x.toNat := by
+  simp [beNat, List.foldl_append]
+
+theorem beNat_beBytes (n v : Nat) (h : v < 256 ^ n) : beNat (beBytes n v) = v := by
+  induction n generalizing v with
+  | zero => simp [Nat.pow_zero] at h; subst h; rfl
+  | succ n ih =>
+    have h1 : v / 256 < 256 ^ n := by
+      rw [Nat.pow_succ] at h
+      exact Nat.div_lt_of_lt_mul (by rw [Nat.mul_comm]; exact h)
+    have h2 : (UInt8.ofNat (v % 256)).toNat = v % 256 := by
+      simp
+    rw [beBytes, beNat_append_single, ih _ h1, h2]
+    omega
+
+theorem takeN_append (l1 rest : Bytes) (n : Nat) (h : l1.length = n) :
+    takeN n (l1 ++ rest) = some (l1, rest) := by
+  unfold takeN
+  have : ¬ (l1 ++ rest).length < n := by simp [h]
+  simp only [this, if_false, List.take_left' h, List.drop_left' h]
+
+theorem readCStr_append (s rest : Bytes) (h : ∀ c ∈ s, c ≠ 0) :
+    readCStr (s ++ (0 :: rest)) = some (s, rest) := by
+  induction s with
+  | nil => simp [readCStr]
+  | cons c s ih =>
+    have hc : c ≠ 0 := h c List.mem_cons_self
+    simp [readCStr, hc, ih (fun x hx => h x (List.mem_cons_of_mem _ hx))]
+
+/-- fields inside the widths of the box layout, strings without NUL, the box
+size fits its 32-bit field -/
+def EmsgBox.wf (b : EmsgBox) : Prop :=
+  (b.version = 0 ∨ b.version = 1) ∧ b.flags < 256 ^ 3 ∧ (∀ c ∈ b.scheme, c ≠ 0) ∧ (∀ c ∈ b.value, c ≠ 0) ∧
+  b.timescale < 256 ^ 4 ∧ (b.version = 0 → b.time < 256 ^ 4) ∧ (b.version = 1 → b.time < 256 ^ 8) ∧
+  b.duration < 256 ^ 4 ∧ b.id < 256 ^ 4 ∧ (encodeEmsgPayload b).length + 8 < 256 ^ 4
+
+theorem parseEmsg_encodeEmsg (b : EmsgBox) (h : b.wf) : parseEmsg (encodeEmsg b) = some b := by
+  obtain ⟨hv, hf, hs, hval, hts, ht0, ht1, hd, hid, hsz⟩ := h
+  obtain ⟨version, flags, scheme, value, timescale, time, duration, id, data⟩ := b
+  simp only at hv hf hs hval hts ht0 ht1 hd hid
+  have t1 : ∀ (n v : Nat) (rest : Bytes), takeN n (beBytes n v ++ rest) = some (beBytes n v, rest) :=
+    fun n v rest => takeN_append _ _ n (beBytes_length n v)
+  have tt : ∀ rest : Bytes, takeN 4 ([0x65, 0x6d, 0x73, 0x67] ++ rest) = some ([0x65, 0x6d, 0x73, 0x67], rest) :=
+    fun rest => takeN_append _ _ 4 rfl
+  have tv : ∀ (x : UInt8) (rest : Bytes), takeN 1 ([x] ++ rest) = some ([x], rest) :=
+    fun x rest => takeN_append _ _ 1 rfl
+  have c1 : ∀ (s rest : Bytes), (∀ c ∈ s, c ≠ 0) → readCStr (s ++ ([0] ++ rest)) = some (s, rest) :=
+    fun s rest h => readCStr_append s rest h
+  have hsz' := beNat_beBytes 4 _ hsz
+  rcases hv with rfl | rfl
+  · have ht := ht0 rfl
+    have hv1 : beNat [UInt8.ofNat 0] = 0 := rfl
+    simp only [encodeEmsgPayload, if_true, List.append_assoc] at hsz' ⊢
+    simp only [parseEmsg, encodeEmsg, encodeEmsgPayload, if_true, List.append_assoc, t1, tt, tv, hsz',
+      Option.bind_eq_bind, Option.bind_some, ne_eq, not_true_eq_false, if_false, hv1,
+      c1 _ _ hs, c1 _ _ hval, beNat_beBytes _ _ hf, beNat_beBytes _ _ hts, beNat_beBytes _ _ ht,
+      beNat_beBytes _ _ hd, beNat_beBytes _ _ hid]
+  · have ht := ht1 rfl
+    have hv1 : beNat [UInt8.ofNat 1] = 1 := rfl
+    have h10 : ¬ ((1 : Nat) = 0) := by decide
+    simp only [encodeEmsgPayload, h10, if_false, List.append_assoc] at hsz' ⊢
+    simp only [parseEmsg, encodeEmsg, encodeEmsgPayload, if_true, List.append_assoc, t1, tt, tv, hsz',
+      Option.bind_eq_bind, Option.bind_some, ne_eq, not_true_eq_false, if_false, hv1, h10,
+      c1 _ _ hs, c1 _ _ hval, beNat_beBytes _ _ hf, beNat_beBytes _ _ hts, beNat_beBytes _ _ ht,
+      beNat_beBytes _ _ hd, beNat_beBytes _ _ hid]
+
 end DashLive.Events
